@@ -1209,6 +1209,7 @@ func checkC11(p *Prog, r *Report) {
 	checkImplsMatchFactory(p, m, r)
 	ruleCompareModeGate(p, m, r)
 	ruleAllowListedCommands(p, m, r, "R06.6")
+	rulePasswordSendsFor(p, r, "R11.p", "C11", "The login dialogue runs in compare mode as well, and what is typed there is not a command from the allow list: a password. It is typed only at audited places under audited conditions (the device has asked for the login or enable password: the dialogue has just matched a password prompt, or the previous answer ends in `password:`; rows of tables/guards.tsv). A password typed as answer to any other question can be taken by the device as a setting (a fresh ASA asks `Enter Password:` / `Repeat Password:` to SET the enable password): the compare run would change the device.")
 	ruleNoReflection(p, r)
 	r.Trusted = append(trustedCallGraph,
 		"the commands in tables/readonly_cmds.tsv do not change device configuration (the ASA terminal-width trio is the property's documented exception)")
